@@ -48,6 +48,11 @@ class Thrown:
     def __init__(self, w): self.what = w
     def key(self): return ('T', self.what)
     def __repr__(self): return 'Thrown(%s)' % self.what
+class CurField:       # field (data/byte/line/column) of a cursor value
+    __slots__ = ('pos', 'name')
+    def __init__(self, p, n): self.pos = p; self.name = n
+    def key(self): return ('CF', self.pos, self.name)
+    def __repr__(self): return 'CurField(%s.%s)' % (self.pos, self.name)
 class Closure:
     __slots__ = ('usr', 'frame', 'fn')
     def __init__(self, u, f, fn=None): self.usr = u; self.frame = f; self.fn = fn
@@ -247,7 +252,7 @@ class Exec:
                 if e.get('arrow') and isinstance(b, Obj) and isinstance(s.heap.get(b.addr), list):
                     b = s.heap[b.addr][1]
                 if isinstance(b, Obj): yield ('field', b.addr, e['n']), s
-                elif isinstance(b, Cur): yield ('val', Unknown('curfield:' + e['n'])), s
+                elif isinstance(b, Cur): yield ('val', CurField(b.pos, e['n'])), s
                 else: yield ('val', Unknown('member')), s
             return
         if k == 'un' and e['op'] == '*':
